@@ -1,2 +1,3 @@
+@dt.setter
 def spec(self, value):
     LIF.dt.fset(self, value)
